@@ -233,3 +233,22 @@ package hls
 //@   modifies
 //@   fresh r
 //@   ensures err == nil && n == len(out(mf.file))
+
+// ---- C10: a fetch of a disk segment reads through a descriptor of its own -------------------------------------------------
+// every call opens the file itself and hands the caller THAT descriptor (an object created by this call; nothing of the
+// segment file object is written): a download in progress keeps its open file when the segment is evicted and unlinked,
+// and overlapping fetches share neither a cursor nor a handle that eviction could close under them
+//@ import "os"
+//@ extern func os.Stat(name string) (fi os.FileInfo, err error)
+//@   modifies
+//@   ensures err == nil ==> fi != nil
+//@ extern func os.Open(name string) (f *os.File, err error)
+//@   modifies
+//@   freshornil f
+//@ extern func (fi os.FileInfo) Size() (n int64)
+//@   modifies
+//@ func (pf *persistentSegmentFile) get() (reader io.Reader, size int, err error)
+//@   requires pf != nil
+//@   modifies
+//@   freshornil reader
+//@   ensures err == nil ==> reader != nil
